@@ -11,6 +11,7 @@
 (*               of this shape (<<>> = elements are scalars)               *)
 (*   G.mask      shape_mask: for every axis of the FULL (interleaved)      *)
 (*               shape, TRUE = external axis, FALSE = internal axis        *)
+(*   (+ derived fields full, extpos, intpos, istrides, see Geom)           *)
 (* State: written : [external index -> Block or Missing]  and a persisted  *)
 (* copy (what a fresh object opened on the same folder would see).         *)
 (*                                                                         *)
@@ -27,6 +28,19 @@
 (*                [exc, shape, data, elems]; exc = "" or exception class;  *)
 (*                `elems` (sequence of Blocks) is used only by the         *)
 (*                un-splatted to_array, `data` by everything else          *)
+(*                                                                         *)
+(* Outside the specification (don't care; the property is silent or the    *)
+(* repository's tests pin diverging behaviour per backend):                *)
+(*  - geometries without any external axis (pipefunc stores a generator    *)
+(*    output `... -> x[i]` as one file, never as a storage array)          *)
+(*  - has_index / get_from_index for linear indices outside 0..size-1      *)
+(*    (FileArray: False / FileNotFoundError, DictArray: ValueError)        *)
+(*  - the CLASS of the exception get_from_index raises for an unwritten    *)
+(*    index (FileNotFoundError vs KeyError): outcome "Raises"              *)
+(*  - dumped values whose shape is not the internal shape, slice step 0,   *)
+(*    keys that are not tuples                                             *)
+(*  - whether a result is a MaskedArray with mask bits or an ndarray that  *)
+(*    holds np.ma.masked constants (both read as masked)                   *)
 (***************************************************************************)
 EXTENDS Integers, Sequences, FiniteSets, TLC
 
